@@ -8,6 +8,11 @@ from lib.common import build_props, WORK
 
 GROUPS = ['GenAsync', 'GenStruct']
 LIMIT = 20
+CAL = {}
+
+
+def limit(sm='spawn'):
+    return LIMIT + 6.0 * CAL.get(sm, 0.0)
 POINTS = ['init', 'init_later', 'task', 'task', 'task', 'between', 'exit', 'idle_keepalive', 'apply_task', 'apply_task', 'idle_in_call']
 
 
@@ -86,7 +91,7 @@ def judge_map(call, out, must_raise, where):
         e = out['exc']
         if e['type'] != 'RuntimeError' or 'died unexpectedly' not in e['args']:
             return f"{where}: the call raised {e['type']}{e['args'][:140]} instead of RuntimeError(died unexpectedly)"
-        if out['wall'] > LIMIT:
+        if out['wall'] > limit():
             return f"{where}: RuntimeError only after {out['wall']:.1f}s"
         part = out.get('partial', [])
         exp = S.expected_value(call)
@@ -123,7 +128,7 @@ def oracle(rec):
         ecb = [c for c in out['callbacks'] if c[0] == 'ecb']
         if sorted(c[1] for c in ecb) != sorted(k - 3000 for k in die_keys):
             return f"apply: error callbacks {ecb} for dying tasks {sorted(die_keys)}"
-        if out['wall'] > LIMIT + 10:
+        if out['wall'] > limit() + 10:
             return f"apply: batch took {out['wall']:.1f}s"
         return None
     if point in ('idle_keepalive', 'idle_in_call'):
@@ -173,6 +178,7 @@ def run(ctx):
     t0 = time.time()
     os.makedirs(os.path.join(WORK, 'markers'), exist_ok=True)
     proof = build_props('C07', GROUPS)
+    CAL.update(runner.calibrate(('fork', 'forkserver', 'spawn')))
     quick = ctx['tier'] == 'quick'
     scens = [gen(rng, k, ctx['tier']) for k in range(60 if quick else 600)]
     recs = runner.run_many(scens, 'c07', jobs=10)
@@ -227,6 +233,7 @@ def run(ctx):
 
 
 def replay(payload):
+    CAL.update(runner.calibrate(('fork', 'forkserver', 'spawn')))
     recs = runner.run_many([payload['scenario']], 'replay', jobs=1, keep=True)
     bad, hangs = analyse(recs)
     print("status:", recs[0]['status'])
